@@ -1,6 +1,7 @@
 package rules
 
 import (
+	"fmt"
 	"go/constant"
 	"go/token"
 	"go/types"
@@ -590,4 +591,203 @@ func absSliceStart(cx *bounds.Ctx, v ssa.Value) (ssa.Value, bounds.Lin) {
 		v = guard.Strip(sl.X)
 	}
 	return v, off
+}
+
+// ---------------------------------------------------------------- field invariants
+
+// fieldInv: for a struct type, integer field F always equals len(field G) + K,
+// because both are set only in fresh composite literals (constructors), with
+// that relation, and never afterwards.
+type fieldInv struct {
+	G int
+	K int64
+}
+
+var fieldInvCache = map[*core.Program]map[string]*fieldInv{}
+
+// fieldLenInvariant looks for the invariant of field fIdx of named struct type nt.
+func fieldLenInvariant(p *core.Program, nt *types.Named, fIdx int) *fieldInv {
+	if fieldInvCache[p] == nil {
+		fieldInvCache[p] = map[string]*fieldInv{}
+	}
+	ck := fmt.Sprintf("%s.%d", nt.String(), fIdx)
+	if inv, done := fieldInvCache[p][ck]; done {
+		return inv
+	}
+	fieldInvCache[p][ck] = nil
+	st, ok := nt.Underlying().(*types.Struct)
+	if !ok || nt.Obj().Pkg() == nil {
+		return nil
+	}
+	isS := func(t types.Type) bool {
+		if ptr, isP := t.Underlying().(*types.Pointer); isP {
+			t = ptr.Elem()
+		}
+		return types.Identical(t, nt)
+	}
+	var found *fieldInv
+	bad := false
+	nAlloc := 0
+	for _, g := range p.SortedFuncs(core.Product) {
+		if g.Pkg == nil || g.Pkg.Pkg != nt.Obj().Pkg() {
+			continue
+		}
+		cx := bounds.NewCtx(g)
+		allInstrs(g, func(ins ssa.Instruction) {
+			switch x := ins.(type) {
+			case *ssa.Store:
+				// whole-struct overwrite
+				if isS(x.Addr.Type()) && types.Identical(x.Val.Type(), nt) {
+					bad = true
+				}
+			case *ssa.FieldAddr:
+				if !isS(x.X.Type()) {
+					return
+				}
+				_, fresh := guard.Strip(x.X).(*ssa.Alloc)
+				for _, ref := range *x.Referrers() {
+					switch y := ref.(type) {
+					case *ssa.Store:
+						if y.Addr == ssa.Value(x) && !fresh && (x.Field == fIdx || isSliceType(st.Field(x.Field).Type())) {
+							// set outside a composite literal: only relevant for F and for
+							// the field it is tied to; decided below once G is known
+							if x.Field == fIdx {
+								bad = true
+							}
+						}
+					case *ssa.UnOp, *ssa.DebugRef:
+					default:
+						if x.Field == fIdx {
+							bad = true // address of F escapes
+						}
+					}
+				}
+			case *ssa.Alloc:
+				if !isS(x.Type()) || !types.Identical(x.Type().Underlying().(*types.Pointer).Elem(), nt) {
+					return
+				}
+				nAlloc++
+				stores := map[int]ssa.Value{}
+				for _, ref := range *x.Referrers() {
+					if fa, isFA := ref.(*ssa.FieldAddr); isFA {
+						for _, r2 := range *fa.Referrers() {
+							if s, isSt := r2.(*ssa.Store); isSt && s.Addr == ssa.Value(fa) {
+								if _, dup := stores[fa.Field]; dup {
+									bad = true
+								}
+								stores[fa.Field] = s.Val
+							}
+						}
+					}
+				}
+				vF, hasF := stores[fIdx]
+				if !hasF {
+					bad = true // a literal leaving F zero: no relation to rely on
+					return
+				}
+				okHere := false
+				for gi, vG := range stores {
+					if gi == fIdx || !isSliceType(st.Field(gi).Type()) {
+						continue
+					}
+					d := cx.Lin(vF).Add(cx.LenOf(vG), -1)
+					if k, isK := d.Const(); isK {
+						if found == nil {
+							found = &fieldInv{G: gi, K: k}
+						}
+						if found.G == gi && found.K == k {
+							okHere = true
+						}
+					}
+				}
+				if !okHere {
+					bad = true
+				}
+			}
+		})
+	}
+	if bad || found == nil || nAlloc == 0 {
+		return nil
+	}
+	// G itself is never set outside the literals
+	for _, g := range p.SortedFuncs(core.Product) {
+		if g.Pkg == nil || g.Pkg.Pkg != nt.Obj().Pkg() {
+			continue
+		}
+		allInstrs(g, func(ins ssa.Instruction) {
+			fa, isFA := ins.(*ssa.FieldAddr)
+			if !isFA || !isS(fa.X.Type()) || fa.Field != found.G {
+				return
+			}
+			_, fresh := guard.Strip(fa.X).(*ssa.Alloc)
+			for _, ref := range *fa.Referrers() {
+				switch y := ref.(type) {
+				case *ssa.Store:
+					if y.Addr == ssa.Value(fa) && !fresh {
+						bad = true
+					}
+				case *ssa.UnOp, *ssa.DebugRef:
+				default:
+					bad = true
+				}
+			}
+		})
+	}
+	if bad {
+		return nil
+	}
+	fieldInvCache[p][ck] = found
+	return found
+}
+
+func isSliceType(t types.Type) bool {
+	_, ok := t.Underlying().(*types.Slice)
+	return ok
+}
+
+// fieldLenFacts: equalities (as pairs of terms >= 0) that the field invariants
+// of the structs read in f contribute: x.F - len(x.G) - K == 0.
+func fieldLenFacts(p *core.Program, cx *bounds.Ctx, f *ssa.Function) []bounds.Lin {
+	var out []bounds.Lin
+	type ld struct {
+		base ssa.Value
+		fa   *ssa.FieldAddr
+		v    ssa.Value
+	}
+	var loads []ld
+	allInstrs(f, func(ins ssa.Instruction) {
+		u, ok := ins.(*ssa.UnOp)
+		if !ok || u.Op != token.MUL {
+			return
+		}
+		if fa, isFA := u.X.(*ssa.FieldAddr); isFA {
+			loads = append(loads, ld{guard.Strip(fa.X), fa, u})
+		}
+	})
+	for _, lf := range loads {
+		bt, isB := lf.v.Type().Underlying().(*types.Basic)
+		if !isB || bt.Info()&types.IsInteger == 0 {
+			continue
+		}
+		pt, isP := lf.fa.X.Type().Underlying().(*types.Pointer)
+		if !isP {
+			continue
+		}
+		nt, isN := pt.Elem().(*types.Named)
+		if !isN {
+			continue
+		}
+		inv := fieldLenInvariant(p, nt, lf.fa.Field)
+		if inv == nil {
+			continue
+		}
+		for _, lg := range loads {
+			if lg.fa.Field == inv.G && lg.base == lf.base {
+				d := cx.Lin(lf.v).Add(cx.LenOf(lg.v), -1).Add(bounds.Konst(inv.K), -1)
+				out = append(out, d, bounds.Konst(0).Add(d, -1))
+				break
+			}
+		}
+	}
+	return out
 }
